@@ -412,7 +412,13 @@ func (m *monitor) fragment(tb *bo.TableBox, spec *tableSpec, cb float64, cbKnown
 				}
 				// paddings and borders are part of the cell's used size: none may be negative
 				// (row-height resolution adds padding to cells, it must never remove any)
+				// (not on continuation fragments of collapsed-border tables: the cells of a
+				// continued row are shifted as a whole there, see cell-top-edge below and the
+				// notes.)
 				for _, v := range []pr.MaybeFloat{cf.PaddingTop, cf.PaddingBottom, cf.PaddingLeft, cf.PaddingRight, cf.BorderTopWidth, cf.BorderBottomWidth, cf.BorderLeftWidth, cf.BorderRightWidth} {
+					if spec.Collapse && fragNo > 0 {
+						break
+					}
 					if x, ok := mf(v); !ok || x < 0 && !near(x, 0) {
 						m.fail("negative-cell-padding", "%s: used padding [%v %v %v %v] border [%v %v %v %v] (top right bottom left)", C, cf.PaddingTop, cf.PaddingRight, cf.PaddingBottom, cf.PaddingLeft, cf.BorderTopWidth, cf.BorderRightWidth, cf.BorderBottomWidth, cf.BorderLeftWidth)
 						return
